@@ -21,14 +21,17 @@ def followup_universe(ex, st, name=''):
     for j, kd in uni.nodes:
         if kd != 'Output':
             continue
-        if j in okd:
-            present[j] = True
-        elif j in st.dv.failed or j in st.dv.at_abort:
-            present[j] = ('present2', j)      # a failed attempt may have removed, kept or garbled the result
-        else:
-            sp = uni.present_spec.get(j)
-            if sp is not None:
-                present[j] = sp
+        # the production strategy looks every output file (':::' part) of a job up separately
+        parts = j.split(':::') if uni.mode == 'prod' else [j]
+        for part in parts:
+            if j in okd:
+                present[part] = True
+            elif j in st.dv.failed or j in st.dv.at_abort:
+                present[part] = ('present2', part)      # a failed attempt may have removed, kept or garbled the result
+            else:
+                sp = uni.present_spec.get(part)
+                if sp is not None:
+                    present[part] = sp
     u2 = X.Universe(uni.mod, uni.nodes, uni.edges, uni.mode, hist, present, inputs=dict(uni.inputs), name=name or uni.name + '+1')
     u2.initial_pc = dict(st.pc)
     u2.prev = (ex, st)
@@ -103,9 +106,9 @@ def st2_universe(st):
     return _UNI_OF[id(s)]
 
 
-def run_reeval_instance(mod, nodes, edges, mode, deadline=None, max_first=2000, built=False):
+def run_reeval_instance(mod, nodes, edges, mode, deadline=None, max_first=2000, built=False, stale=(), inputs=None):
     """C12: returns (stats, violations)"""
-    uni = H.make_universe(mod, nodes, edges, mode, built=built)
+    uni = H.make_universe(mod, nodes, edges, mode, built=built, stale=stale, inputs=inputs)
     ex1 = X.Explorer(uni, [], fail_actions=False, abort_actions=False)
     ex1.run(deadline=deadline)
     stats = {'states': ex1.n_states, 'transitions': ex1.n_transitions, 'events': ex1.n_events, 'finals': len(ex1.finals),
